@@ -83,7 +83,10 @@ def eps_of(name):
 # ============================================================================ running the real functions
 def invoke(fn, ty, U, E):
     pp = pypose()
-    kw = {} if E is None else {"rtol": 10.0 ** -E, "atol": 10.0 ** -E}
+    if isinstance(E, (tuple, list)):      # (atol exponent, rtol exponent)
+        kw = {"rtol": 10.0 ** -E[1], "atol": 10.0 ** -E[0]}
+    else:
+        kw = {} if E is None else {"rtol": 10.0 ** -E, "atol": 10.0 ** -E}
     if fn == "from_matrix":
         return pp.from_matrix(U, getattr(pp, ty + "_type"), **kw)
     return getattr(pp, "mat2" + ty)(U, **kw)
@@ -695,13 +698,29 @@ def check_items(ctx):
                                     add(ty, dt, E, kind, k, A, tag, fn=fn)
                             else:
                                 add(ty, dt, E, kind, k, A, tag)
+        # rtol != atol: a shear only has off-diagonal defects in R R^T (compared with 0), so atol alone decides; a
+        # swapped or dropped argument accepts / rejects on the wrong side.  (atol exponent, rtol exponent)
+        if dt == "float64":
+            for ty in TYPES:
+                for Ea, Er in ((6, 2), (2, 6)):
+                    for k in (Ea - 2, Ea + 2):
+                        for fn in ("from_matrix", "mat2" + ty):
+                            R, tag = base_rot()
+                            i, j = rng.sample(range(3), 2)
+                            Eij = mp.zeros(3)
+                            Eij[i, j] = 1
+                            M = mp.matrix(R) * (mp.eye(3) + mp.mpf(10) ** -k * Eij)
+                            s = mp.mpf(10) ** mp.mpf(rng.uniform(-1, 1)) if HAS_S[ty] else mp.mpf(1)
+                            add(ty, dt, (Ea, Er), "shear", k, [[s * M[a, b] for b in range(3)] for a in range(3)], tag + "/rtol!=atol", fn=fn)
     return items
 
 
 def ev_check(it, res):
     raised, exc, Y, note = res
     return {"op": "check", "fn": it["fn"], "ty": it["ty"], "lay": it["lay"], "dt": it["dt"], "pk": it["pk"], "k": it["k"],
-            "E": 5 if it["E"] is None else it["E"], "cell": it["cell"], "raised": bool(raised), "exc": exc, "bs": note}
+            "E": 5 if it["E"] is None else it["E"][0] if isinstance(it["E"], (tuple, list)) else it["E"],
+            "Er": 5 if it["E"] is None else it["E"][1] if isinstance(it["E"], (tuple, list)) else it["E"],
+            "cell": it["cell"], "raised": bool(raised), "exc": exc, "bs": note}
 
 
 def mixed_items(ctx):
@@ -729,7 +748,7 @@ def ev_mixed(it):
     ty, dt = it["ty"], it["dt"]
     U = torch.tensor([unhex(m) for m in it["mats"]], dtype=tdtype(dt)).reshape(tuple(it["shape"]) + (3, 3))
     raised, exc, _ = call_one("mat2" + ty, ty, U, None)
-    return {"op": "check", "fn": "mat2" + ty, "ty": ty, "lay": "33", "dt": dt, "pk": it["pk"], "k": 2, "E": 5,
+    return {"op": "check", "fn": "mat2" + ty, "ty": ty, "lay": "33", "dt": dt, "pk": it["pk"], "k": 2, "E": 5, "Er": 5,
             "cell": "mixed_batch@%d" % it["pos"], "raised": bool(raised), "exc": exc,
             "bs": "" if (raised and exc == "ValueError") else "mixed=%s" % (tuple(it["shape"]),)}
 
@@ -743,7 +762,8 @@ def events_of(ctx, items):
         if it["kind"] in ("from", "fromsq2", "nfrom", "check"):
             ind = it["kind"] == "check" or it.get("valid") is False
             bs = tuple(it["bshape"]) if it.get("bshape") is not None else None      # replay of a batch-shape failure
-            groups.setdefault((it["fn"], it["ty"], it["lay"], it["dt"], it["E"], bool(ind), bs), []).append(i)
+            Ek = tuple(it["E"]) if isinstance(it["E"], list) else it["E"]
+            groups.setdefault((it["fn"], it["ty"], it["lay"], it["dt"], Ek, bool(ind), bs), []).append(i)
     for key, idx in groups.items():
         res = run_group(ctx.rng, key[:5], [unhex(items[i]["U"]) for i in idx], key[5], key[6])
         for i, r in zip(idx, res):
